@@ -435,7 +435,9 @@ func (w *C11World) EnvActions() []Action {
 				c.goAwaySent = true
 				c.goAwayLast = w.lastID(c)
 				for _, s := range c.streams {
-					if s > c.goAwayLast && c.byStream[s].disclaimed == "" && c.byStream[s].answered == 0 {
+					// above last-stream-id the server has disclaimed the stream, even one it had begun to answer:
+					// the statement lets the client end it with an error and send it again
+					if s > c.goAwayLast && c.byStream[s].disclaimed == "" {
 						c.byStream[s].disclaimed = "goaway"
 					}
 				}
